@@ -1,6 +1,69 @@
-(* C01 -- end-to-end property on MiniPy programs: see Py/Sem.v (reference semantics), Py/Instr.v, Py/Guard.v. *)
+(* C01 -- execution transparency.
+   Layering: (1) the instrumented program under the model of the runtime IS the reference semantics of the
+   source program (all MiniPy programs, all hook selections, all analyses, all data semantics with pure truth
+   tests, all fuel, all initial states), outside the four guard clauses; (2) each guard clause is refuted by a
+   concrete witness on which the implementation is run by every check; (3) names and operator codes of the
+   models are the ones of the current source. *)
 From Coq Require Import String List Bool.
-From DV Require Import Py.Codes.
+From DV Require Import Engine.Dispatch Py.Syntax Py.Sem Py.Instr Py.Guard Py.Refine Py.Props Py.Codes
+                       Concrete.Run Concrete.Instance Concrete.Tiny Concrete.Witness.
+Import ListNotations.
+
+(* the instrumented run and the reference run are the same computation: same outcome, same world, same
+   globals, same frames, same deliveries *)
+Theorem C01_instrumented_is_reference :
+  forall (D : data) (analyses : list (analysis (Sem.earg (d_val D)))) (modpath : string)
+         (H : list string) (p : program) (fuel : nat) (s : state D),
+    pure_truth D -> src_prog p = true -> ok_prog H p = true ->
+    inst_run D analyses modpath H fuel p s = ref_run D analyses modpath H fuel p s.
+Proof. exact instrumented_is_reference. Qed.
+Print Assumptions C01_instrumented_is_reference.
+
+Theorem C01_same_behaviour_as_reference :
+  forall (D : data) (analyses : list (analysis (Sem.earg (d_val D)))) (modpath : string)
+         (H : list string) (p : program) (fuel : nat) (s : state D),
+    pure_truth D -> src_prog p = true -> ok_prog H p = true ->
+    behaviour D (inst_run D analyses modpath H fuel p s) = behaviour D (ref_run D analyses modpath H fuel p s).
+Proof. exact same_behaviour. Qed.
+Print Assumptions C01_same_behaviour_as_reference.
+
+(* the hypotheses are satisfiable: a data semantics with pure truth tests exists *)
+Example C01_pure_truth_inhabited : pure_truth tdata.
+Proof. exact tdata_pure_truth. Qed.
+
+(* the full statement (no guard) is false of the faithful model: one witness per guard clause, on the concrete
+   data semantics that mirrors the support library of the generated programs *)
+Theorem C01_refuted_chain_eager :
+  behaviour_eqb (run_inst 40 h_chain_eager a_chain_eager false w_chain_eager) (run_orig 40 w_chain_eager) = false.
+Proof. exact w_chain_eager_not_transparent. Qed.
+Theorem C01_refuted_assert_msg_eager :
+  behaviour_eqb (run_inst 40 h_assert_msg_eager a_assert_msg_eager false w_assert_msg_eager) (run_orig 40 w_assert_msg_eager) = false.
+Proof. exact w_assert_msg_eager_not_transparent. Qed.
+Theorem C01_refuted_aug_assign :
+  behaviour_eqb (run_inst 40 h_aug_assign a_aug_assign false w_aug_assign) (run_orig 40 w_aug_assign) = false.
+Proof. exact w_aug_assign_not_transparent. Qed.
+Theorem C01_refuted_truth_retest :
+  behaviour_eqb (run_inst 40 h_truth_retest a_truth_retest false w_truth_retest) (run_orig 40 w_truth_retest) = false.
+Proof. exact w_truth_retest_not_transparent. Qed.
+Print Assumptions C01_refuted_truth_retest.
+
+(* the reference semantics itself is transparent on the witnesses *)
+Theorem C01_reference_transparent_on_witnesses :
+  behaviour_eqb (run_ref 40 h_chain_eager a_chain_eager false w_chain_eager) (run_orig 40 w_chain_eager) = true
+  /\ behaviour_eqb (run_ref 40 h_assert_msg_eager a_assert_msg_eager false w_assert_msg_eager) (run_orig 40 w_assert_msg_eager) = true
+  /\ behaviour_eqb (run_ref 40 h_aug_assign a_aug_assign false w_aug_assign) (run_orig 40 w_aug_assign) = true
+  /\ behaviour_eqb (run_ref 40 h_truth_retest a_truth_retest false w_truth_retest) (run_orig 40 w_truth_retest) = true.
+Proof.
+  exact (conj w_chain_eager_reference_transparent (conj w_assert_msg_eager_reference_transparent
+        (conj w_aug_assign_reference_transparent w_truth_retest_reference_transparent))).
+Qed.
+
+(* the runs compared with the implementation by the correspondence check are these runs, instantiated *)
+Theorem C01_checked_runs_are_instances : forall fuel H anas cov p,
+  run_inst fuel H anas cov p = observe (fnames_of p) (inst_run (cdata (fnames_of p)) (map mk_pana anas) "M" H fuel p (st0 (fnames_of p) cov))
+  /\ run_ref fuel H anas cov p = observe (fnames_of p) (ref_run (cdata (fnames_of p)) (map mk_pana anas) "M" H fuel p (st0 (fnames_of p) cov)).
+Proof. intros. exact (conj (run_inst_is_inst_run fuel H anas cov p) (run_ref_is_ref_run fuel H anas cov p)). Qed.
+
 Theorem C01_codes_match_source : codes_ok = true.
 Proof. exact codes_ok_true. Qed.
 Print Assumptions C01_codes_match_source.
